@@ -2,7 +2,8 @@
 """C18 - lookup functions return the addressed element or an error, never another one
 (CHOOSE, INDEX, MATCH of hotxlfp/formulas/lookupandreference.py)
 
-case kinds: choose (CHOOSE(i,v1..vn)), index (INDEX on a variable / literal / range value, src = var / lit / range),
+case kinds: choose (CHOOSE(i,v1..vn); a value may be an array, written as a literal or handed over in a variable,
+src = lit / var), index (INDEX on a variable / literal / range value, src = var / lit / range),
 match (MATCH(x,A[,t]); with `pre` a criteria function or a MATCH in another letter case is evaluated first on the same
 array and text), im (INDEX(A,MATCH(x,A,0))), fn (direct call of one of the three functions, model comparison only)"""
 import itertools
@@ -17,8 +18,11 @@ FUNCTIONS = ['hotxlfp.formulas.lookupandreference:CHOOSE', 'hotxlfp.formulas.loo
              'hotxlfp.helper.number:to_number']
 RULE = ('formulas evaluated by one shared hotxlfp.Parser (kinds choose, index, match, im) and direct calls (kind fn); every case is '
         'also put to the Lean model. '
-        'CHOOSE (575 cases): n = 1..8 and 253..256 pairwise distinct literal values (numbers; text); n <= 8: ALL ints i in -10..n+10, '
-        'n >= 253: i in -3..3 and 250..261; the 13 odd spellings below and a blank slot as i on 3 values; CHOOSE(1) without values. '
+        'CHOOSE (903 cases): n = 1..8 and 253..256 pairwise distinct literal values (numbers; text); n <= 8: ALL ints i in -10..n+10, '
+        'n >= 253: i in -3..3 and 250..261; the 13 odd spellings below and a blank slot as i on 3 values; CHOOSE(1) without values; '
+        'array values (328 cases): one array (flat of length 1, 2, 3, 5, or 2x2, 2x3; both fills) as the ONLY value with ALL i in '
+        '-2..cols+3, and the three values (that array, 7, a flat array of length 2) with i in 0..4, each written with array literals '
+        '(src lit) and with the arrays handed over in list-valued variables Wa, Wc (src var) - an array is one value, chosen whole. '
         'INDEX: arrays of every shape 1..8 x 1..8 and every flat length 1..8 in both fills (thorough, 105168 cases; quick: flat 1, 3, 8 in '
         'both fills, 1x1, 2x3, 3x2, 1x8, 8x1, 8x8 and 2*scale seeded shapes in one fill each, about 10000), filled with pairwise distinct '
         'numbers (ints, negatives, 0, dyadic fractions) or pairwise distinct text (distinct ignoring case, 2+ characters), supplied as a '
@@ -48,7 +52,7 @@ RULE = ('formulas evaluated by one shared hotxlfp.Parser (kinds choose, index, m
         'empty lookup arrays, logicals) with types 0, 1, -1. '
         'Direct calls (kind fn, 800 / 6000 times scale): INDEX / MATCH / CHOOSE on 0..5 arguments from 25 odd values (blank, logicals, '
         'ints, floats, text numerals, text, "A*", empty, flat, nested, ragged and mixed lists): model comparison only (value, or tag of '
-        'the exception raised). Totals about 21000 cases in quick (39500 at scale 5), 155500 in thorough. '
+        'the exception raised). Totals about 21000 cases in quick (39500 at scale 5), 155800 in thorough. '
         'Model comparison of every case: same error tag or value of identical type (floats within 4 ulp); model answers without opinion '
         'are skipped. When a proof or the correspondence broke and no case failed: the thorough family at scale 2 without the fn cases, '
         'oracle only, up to the first failure. A failing INDEX case is shrunk to a smaller array of the same fill that still fails. '
@@ -59,7 +63,7 @@ TRUSTED = ['Python list/str subscripting, ==, <, > on int/float/bool/str/list (m
            'os.path.normcase is the identity on Linux; str.lower on ASCII',
            'the oracle\'s own reference: index_wants (acceptable answers per index pair), ref_glob (* = any sequence, ? = one character, '
            'on lower-cased text), Python <=, >=, max, min, == on numbers and on lower-case ASCII text for types 1 / -1',
-           'one hotxlfp.Parser serves all formula cases: variables A and X are overwritten per case, range values come from a table '
+           'one hotxlfp.Parser serves all formula cases: variables A and X (Wa, Wc for array values of CHOOSE) are overwritten per case, range values come from a table '
            'refilled per case through the callRangeValue listener; Parser.parse turns an exception into an error record; array '
            'literals read back as the written values (-0.0, exponents and quotes are kept out of literals)',
            'model comparison by fx.record_matches / value_matches: error records by tag, values of identical type, floats sent as exact '
@@ -103,7 +107,10 @@ ASSUMPTIONS = ['a blank argument slot is the same as an omitted index',
                'sorted text for types 1/-1 is lower-case ASCII (code-point order = Excel order there)',
                'INDEX(A,MATCH(x,A,0)) = x is read with the same equality (a number equal to x by value, a text equal ignoring case: '
                '"Apple" for x = "apple"); judged only when x occurs in A and has no wildcard characters * ? [',
-               'CHOOSE takes at most 254 values: with more of them an index inside 1..n may give the addressed value or an error']
+               'CHOOSE takes at most 254 values: with more of them an index inside 1..n may give the addressed value or an error',
+               'a CHOOSE value that is an array (an array literal or a list-valued variable) is ONE value: CHOOSE(1,{v1..vm}) is the '
+               'whole array as supplied (lists item by item, nested for a two-row literal) and every other index is an error - the items '
+               'of the array are never addressed as if they were the values']
 EXHAUSTIVE = {'quick': False, 'thorough': True}
 
 _p = [None]
